@@ -260,3 +260,53 @@ func thinTarget(fn *ssa.Function) *ssa.Function {
 	}
 	return fn
 }
+
+// retSite is a return site together with the frame it belongs to.
+type retSite struct {
+	fr *Frame
+	rs *ReturnSite
+}
+
+// expandedReturns lists the return sites of fr, replacing a return that merely forwards the
+// results of a call to a function of the same package (inlined as a child frame) by that
+// callee's own return sites, whose path conditions are not yet merged. Two levels.
+func expandedReturns(fr *Frame, depth int) []retSite {
+	var out []retSite
+	for i := range fr.returns {
+		rs := &fr.returns[i]
+		var fwd *Frame
+		if depth < 2 && len(rs.instr.Results) > 0 {
+			// all results are extracts of (or the value of) one call instruction
+			var call *ssa.Call
+			ok := true
+			for k, rv := range rs.instr.Results {
+				switch x := rv.(type) {
+				case *ssa.Extract:
+					cl, isC := x.Tuple.(*ssa.Call)
+					if !isC || x.Index != k || (call != nil && call != cl) {
+						ok = false
+					}
+					call = cl
+				case *ssa.Call:
+					if len(rs.instr.Results) != 1 {
+						ok = false
+					}
+					call = x
+				default:
+					ok = false
+				}
+			}
+			if ok && call != nil {
+				if ch := fr.child[call]; ch != nil && ch.fn.Pkg == fr.fn.Pkg {
+					fwd = ch
+				}
+			}
+		}
+		if fwd != nil {
+			out = append(out, expandedReturns(fwd, depth+1)...)
+		} else {
+			out = append(out, retSite{fr, rs})
+		}
+	}
+	return out
+}
